@@ -312,6 +312,20 @@ func (h *Hist) randomEvent() string {
 	if focus == "up" && r.chance(35) {
 		ev = r.pickI(4, 4, 5, 16, 13) // tainted nodes to reuse, force-tainted nodes to remove first, ties, deliveries
 	}
+	if focus == "annot" && r.chance(40) && len(nodes) > 0 {
+		// several tainted nodes past their grace periods, most of them carrying the no-delete annotation
+		k := r.rng(2, 5)
+		for i := 0; i < k; i++ {
+			n := pickNode()
+			if !n.hasTaint(escKey) {
+				n.Taints = append(n.Taints, WTaint{Key: escKey, Effect: "NoSchedule", Rel: true, Ago: []int64{soft + 1, hard + 1, 2 * hard}[r.intn(3)]})
+			}
+			if r.chance(70) {
+				n.Annotations[noDeleteKey] = r.pick("true", "keep", "x", "")
+			}
+		}
+		return "annot-burst"
+	}
 	if focus == "faults" && r.chance(30) {
 		ev = r.pickI(15, 15, 4, 19, 13) // odd nodes, odd taint values, vanished objects, deliveries
 	}
